@@ -1,4 +1,1144 @@
-From Coq Require Import List NArith Bool Lia.
+(* KV.C34.Proofs — lemmas and proofs for the key object model. *)
+From Coq Require Import List NArith Bool Lia PeanoNat.
 Import ListNotations.
 Require Import KV.C34.Model.
 Open Scope N_scope.
+
+Arguments N.add : simpl never.
+Arguments N.sub : simpl never.
+Arguments N.ltb : simpl never.
+Arguments N.leb : simpl never.
+Arguments N.eqb : simpl never.
+Arguments N.div : simpl never.
+
+(* ------------------------------------------------------------------ association lists *)
+Section Assoc.
+Context {A : Type}.
+Implicit Types (l : list (N * A)) (k : N) (v : A).
+
+Lemma find_In : forall l k v, find k l = Some v -> In (k, v) l.
+Proof.
+  induction l as [|[k' v'] t IH]; cbn [find]; intros k v H; [discriminate|].
+  destruct (N.eqb_spec k k') as [->|Hne].
+  - inversion H; subst. now left.
+  - right. now apply IH.
+Qed.
+
+Lemma In_find_some : forall l k v, In (k, v) l -> exists v', find k l = Some v'.
+Proof.
+  induction l as [|[k' v'] t IH]; cbn [find]; intros k v H; [destruct H|].
+  destruct (N.eqb_spec k k') as [->|Hne]; [eauto|].
+  destruct H as [H|H]; [inversion H; subst; congruence|eauto].
+Qed.
+
+Lemma find_none_In : forall l k v, find k l = None -> ~ In (k, v) l.
+Proof.
+  intros l k v Hn Hin. destruct (In_find_some _ _ _ Hin) as [v' Hv]. congruence.
+Qed.
+
+Definition uniq l := NoDup (map fst l).
+
+Lemma uniq_In_find : forall l k v, uniq l -> In (k, v) l -> find k l = Some v.
+Proof.
+  induction l as [|[k' v'] t IH]; cbn [find]; intros k v Hu Hin; [destruct Hin|].
+  unfold uniq in Hu. cbn in Hu. inversion Hu as [|? ? Hni Hu']; subst.
+  destruct Hin as [Hin|Hin].
+  - inversion Hin; subst. now rewrite N.eqb_refl.
+  - destruct (N.eqb_spec k k') as [->|Hne].
+    + exfalso. apply Hni. now apply (in_map fst) in Hin.
+    + now apply IH.
+Qed.
+
+Lemma In_place : forall l k v k0 x,
+  In (k0, x) (place k v l) <-> (k0 = k /\ x = v) \/ In (k0, x) l.
+Proof.
+  induction l as [|[k' v'] t IH]; cbn [place]; intros k v k0 x.
+  - cbn. split; [intros [H|[]]; inversion H; auto | intros [[-> ->]|[]]; auto].
+  - destruct (k <? k').
+    + cbn. split; [intros [H|H]; [inversion H; auto|auto] | intros [[-> ->]|H]; auto].
+    + cbn [In]. rewrite IH. tauto.
+Qed.
+
+Lemma In_ins : forall l k v k0 x,
+  In (k0, x) (ins k v l) <-> (k0 = k /\ x = v) \/ (k0 <> k /\ In (k0, x) l).
+Proof.
+  intros l k v k0 x. unfold ins. rewrite In_place, filter_In. cbn [fst].
+  destruct (N.eqb_spec k0 k) as [->|Hne]; cbn; split; intros H.
+  - destruct H as [H|[_ H]]; [auto|discriminate].
+  - destruct H as [H|[H _]]; [auto|congruence].
+  - destruct H as [[H _]|[H _]]; [congruence|auto].
+  - destruct H as [[H _]|[_ H]]; [congruence|auto].
+Qed.
+
+Lemma keys_place : forall l k v x, In x (map fst (place k v l)) <-> x = k \/ In x (map fst l).
+Proof.
+  induction l as [|[k' v'] t IH]; cbn [place]; intros k v x.
+  - cbn. intuition.
+  - destruct (k <? k'); cbn [map fst In]; [intuition|]. rewrite IH. intuition.
+Qed.
+
+Lemma uniq_place : forall l k v, uniq l -> ~ In k (map fst l) -> uniq (place k v l).
+Proof.
+  unfold uniq. induction l as [|[k' v'] t IH]; cbn [place]; intros k v Hu Hni.
+  - cbn. constructor; [intros []|constructor].
+  - cbn in Hu. inversion Hu as [|? ? Hn Hu']; subst.
+    destruct (k <? k').
+    + cbn. constructor; [exact Hni|]. cbn. constructor; assumption.
+    + cbn. constructor.
+      * rewrite keys_place. intros [->|H]; [apply Hni; now left|contradiction].
+      * apply IH; [assumption|]. intros H. apply Hni. now right.
+Qed.
+
+Lemma uniq_filter : forall (f : N * A -> bool) l, uniq l -> uniq (filter f l).
+Proof.
+  unfold uniq. intros f. induction l as [|[k v] t IH]; cbn; intros Hu; [constructor|].
+  inversion Hu as [|? ? Hn Hu']; subst.
+  destruct (f (k, v)); cbn; [constructor|auto].
+  - intros H. apply Hn. apply in_map_iff in H. destruct H as [[k2 v2] [E H]].
+    apply filter_In in H. destruct H as [H _]. cbn in E. subst. now apply (in_map fst) in H.
+  - auto.
+Qed.
+
+Lemma uniq_ins : forall l k v, uniq l -> uniq (ins k v l).
+Proof.
+  intros l k v Hu. unfold ins. apply uniq_place; [now apply uniq_filter|].
+  intros H. apply in_map_iff in H. destruct H as [[k2 v2] [E H]]. cbn in E. subst.
+  apply filter_In in H. destruct H as [_ H]. cbn in H. now rewrite N.eqb_refl in H.
+Qed.
+
+Lemma find_ins_same : forall l k v, uniq l -> find k (ins k v l) = Some v.
+Proof.
+  intros l k v Hu. apply uniq_In_find; [now apply uniq_ins|]. apply In_ins. auto.
+Qed.
+
+Lemma find_place_other : forall l k v k0, k0 <> k -> find k0 (place k v l) = find k0 l.
+Proof.
+  induction l as [|[k' v'] t IH]; cbn [place]; intros k v k0 Hne.
+  - cbn [find]. destruct (N.eqb_spec k0 k); congruence.
+  - destruct (k <? k'); cbn [find].
+    + destruct (N.eqb_spec k0 k); congruence.
+    + destruct (k0 =? k'); [reflexivity|now apply IH].
+Qed.
+
+Lemma find_filter_other : forall l k k0, k0 <> k ->
+  find k0 (filter (fun p : N * A => negb (fst p =? k)) l) = find k0 l.
+Proof.
+  induction l as [|[k' v'] t IH]; cbn [filter find fst]; intros k k0 Hne; [reflexivity|].
+  destruct (N.eqb_spec k' k) as [->|Hn]; cbn [negb find].
+  - destruct (N.eqb_spec k0 k); [congruence|now apply IH].
+  - destruct (k0 =? k'); [reflexivity|now apply IH].
+Qed.
+
+Lemma find_ins_other : forall l k v k0, k0 <> k -> find k0 (ins k v l) = find k0 l.
+Proof.
+  intros. unfold ins. rewrite find_place_other by assumption. now apply find_filter_other.
+Qed.
+End Assoc.
+
+Lemma mem_In : forall l x, mem x l = true <-> In x l.
+Proof.
+  induction l as [|y t IH]; cbn [mem In]; intros x; [split; [discriminate|tauto]|].
+  rewrite orb_true_iff, IH, N.eqb_eq. intuition.
+Qed.
+
+Lemma In_add : forall l x y, In x (add y l) <-> x = y \/ In x l.
+Proof.
+  induction l as [|z t IH]; cbn [add]; intros x y; [cbn; intuition|].
+  destruct (y <? z); [cbn; intuition|].
+  destruct (N.eqb_spec y z) as [->|Hne]; [cbn; intuition|].
+  cbn [In]. rewrite IH. intuition.
+Qed.
+
+(* ------------------------------------------------------------------ stored value sets *)
+Lemma In_merge1 : forall acc e k x, In (k, x) (merge1 acc e) -> In (k, x) acc \/ (k, x) = e.
+Proof.
+  intros acc [k2 v2] k x. unfold merge1.
+  destruct (find k2 acc) as [vs|]; [destruct (better v2 vs)|]; intros H; auto;
+    apply In_ins in H; destruct H as [[-> ->]|[_ H]]; auto.
+Qed.
+
+Lemma In_merge : forall b a k x, In (k, x) (merge a b) -> In (k, x) a \/ In (k, x) b.
+Proof.
+  unfold merge. induction b as [|e t IH]; cbn [fold_left]; intros a k x H; [auto|].
+  apply IH in H. destruct H as [H|H]; [|right; now right].
+  apply In_merge1 in H. destruct H as [H|H]; [auto|right; left; auto].
+Qed.
+
+Lemma uniq_merge1 : forall acc e, uniq acc -> uniq (merge1 acc e).
+Proof.
+  intros acc [k2 v2] Hu. unfold merge1.
+  destruct (find k2 acc) as [vs|]; [destruct (better v2 vs)|]; auto using uniq_ins.
+Qed.
+
+Lemma uniq_merge : forall b a, uniq a -> uniq (merge a b).
+Proof.
+  unfold merge. induction b as [|e t IH]; cbn [fold_left]; intros a Hu; [assumption|].
+  apply IH. now apply uniq_merge1.
+Qed.
+
+Lemma In_trim : forall t l e, In e (trim t l) -> In e l.
+Proof. intros t l e H. unfold trim in H. apply filter_In in H. tauto. Qed.
+
+Lemma uniq_trim : forall t l, uniq l -> uniq (trim t l).
+Proof. intros. unfold trim. now apply uniq_filter. Qed.
+
+Lemma In_trim_keep : forall t l k x,
+  In (k, x) l -> is_revoked (k_st x) = false -> In (k, x) (trim t l).
+Proof.
+  intros t l k x H Hr. unfold trim. apply filter_In. split; [assumption|]. cbn [snd]. now rewrite Hr.
+Qed.
+
+Definition allQ (Q : key -> Prop) (l : stored) (k : N) : Prop := forall x, In (k, x) l -> Q x.
+Definition dead := allQ (fun x => k_st x = Revoked).
+
+Lemma allQ_merge : forall (Q : key -> Prop) a b k, allQ Q a k -> allQ Q b k -> allQ Q (merge a b) k.
+Proof. intros Q a b k Ha Hb x H. apply In_merge in H. destruct H; auto. Qed.
+
+Lemma allQ_trim : forall (Q : key -> Prop) t l k, allQ Q l k -> allQ Q (trim t l) k.
+Proof. intros Q t l k H x Hin. apply H. eapply In_trim; eauto. Qed.
+
+Lemma allQ_ins_other : forall (Q : key -> Prop) l k k2 v,
+  k <> k2 -> (allQ Q (ins k2 v l) k <-> allQ Q l k).
+Proof.
+  intros Q l k k2 v Hne. unfold allQ. split; intros H x Hin.
+  - apply H. apply In_ins. right. auto.
+  - apply In_ins in Hin. destruct Hin as [[-> _]|[_ Hin]]; [congruence|auto].
+Qed.
+
+Lemma allQ_ins_same : forall (Q : key -> Prop) l k v, Q v -> allQ Q (ins k v l) k.
+Proof.
+  intros Q l k v Hq x Hin. apply In_ins in Hin. destruct Hin as [[_ ->]|[Hne _]]; [assumption|congruence].
+Qed.
+
+Lemma not_better_revoked : forall vo vs,
+  k_st vo = Revoked -> better vo vs = false -> k_st vs = Revoked.
+Proof.
+  intros vo vs Ho Hb. unfold better in Hb. rewrite Ho in Hb. apply orb_false_iff in Hb.
+  destruct Hb as [Hb _]. destruct (k_st vs); cbn in Hb; try discriminate; reflexivity.
+Qed.
+
+(* revoked on the incoming side wins *)
+Lemma fold_merge_revoked : forall k b acc,
+  uniq acc -> dead b k -> (dead acc k \/ exists x, In (k, x) b) ->
+  dead (fold_left merge1 b acc) k.
+Proof.
+  intros k. induction b as [|[k2 v2] t IH]; cbn [fold_left]; intros acc Hu Hb Hd.
+  - destruct Hd as [Hd|[x []]]. exact Hd.
+  - assert (Hbt : dead t k) by (intros x Hx; apply Hb; now right).
+    apply IH; [now apply uniq_merge1|exact Hbt|].
+    destruct (N.eq_dec k2 k) as [->|Hne].
+    + left. assert (Hv2 : k_st v2 = Revoked) by (apply Hb; now left).
+      unfold merge1. destruct (find k acc) as [vs|] eqn:Hf.
+      * destruct (better v2 vs) eqn:Hbt2; [now apply allQ_ins_same|].
+        pose proof (not_better_revoked _ _ Hv2 Hbt2) as Hvs.
+        intros x Hx. rewrite (uniq_In_find _ _ _ Hu Hx) in Hf. inversion Hf; subst. exact Hvs.
+      * now apply allQ_ins_same.
+    + assert (Hiff : dead (merge1 acc (k2, v2)) k <-> dead acc k).
+      { unfold merge1. destruct (find k2 acc) as [vs|]; [destruct (better v2 vs)|];
+          try tauto; apply allQ_ins_other; congruence. }
+      destruct Hd as [Hd|[x [Hx|Hx]]]; [left; now apply Hiff| inversion Hx; congruence | right; eauto].
+Qed.
+
+Lemma merge_revoked_right : forall a b k x,
+  uniq a -> dead b k -> In (k, x) b -> dead (merge a b) k.
+Proof. intros. unfold merge. apply fold_merge_revoked; eauto. Qed.
+
+(* a key present on one side stays present *)
+Lemma merge1_keeps : forall acc e k, (exists x, In (k, x) acc) -> exists x, In (k, x) (merge1 acc e).
+Proof.
+  intros acc [k2 v2] k [x Hx]. unfold merge1.
+  assert (Hi : exists y, In (k, y) (ins k2 v2 acc)).
+  { destruct (N.eq_dec k k2) as [->|Hne]; [exists v2|exists x]; apply In_ins; auto. }
+  destruct (find k2 acc) as [vs|]; [destruct (better v2 vs)|]; eauto.
+Qed.
+
+Lemma merge1_adds : forall acc k v, exists x, In (k, x) (merge1 acc (k, v)).
+Proof.
+  intros acc k v. unfold merge1. destruct (find k acc) as [vs|] eqn:Hf.
+  - destruct (better v vs); [exists v; apply In_ins; auto|exists vs; now apply find_In].
+  - exists v. apply In_ins. auto.
+Qed.
+
+Lemma merge_present : forall k b a,
+  (exists x, In (k, x) a) \/ (exists x, In (k, x) b) -> exists x, In (k, x) (merge a b).
+Proof.
+  intros k. unfold merge. induction b as [|[k2 v2] t IH]; cbn [fold_left]; intros a H.
+  - destruct H as [H|[x []]]. exact H.
+  - apply IH. destruct H as [H|[x [Hx|Hx]]].
+    + left. now apply merge1_keeps.
+    + inversion Hx; subst. left. apply merge1_adds.
+    + right. eauto.
+Qed.
+
+(* ------------------------------------------------------------------ the key maps of an object *)
+Lemma all_new_active : forall fx o u vf kid c,
+  o_all (new_active fx o u vf kid c) = ins kid (mkkey u vf Valid c) (o_all o).
+Proof. reflexivity. Qed.
+
+Lemma all_assert : forall fx o u t kid c,
+  o_all (assert_active fx o u t kid c) = o_all o \/
+  o_all (assert_active fx o u t kid c) = ins kid (mkkey u (secs_of t) Valid c) (o_all o).
+Proof. intros. unfold assert_active. destruct (signer o u (secs_of t)); cbn; auto. Qed.
+
+Definition rot_kid (news : list (N * N)) (u : N) : N :=
+  match find u news with Some k => k | None => 0 end.
+
+Lemma rotate_fold : forall fx t c news us o,
+  fold_left (fun acc u => new_active fx acc u (secs_of t) (rot_kid news u) c) us o =
+  fold_left (fun acc u => new_active fx acc u (secs_of t)
+                            (match find u news with Some k => k | None => 0 end) c) us o.
+Proof. reflexivity. Qed.
+
+(* what a rotation does to the key map: only fresh Valid bindings for the supplied kids *)
+Lemma rotate_all : forall fx t c news us o,
+  let o' := fold_left (fun acc u => new_active fx acc u (secs_of t) (rot_kid news u) c) us o in
+  (uniq (o_all o) -> uniq (o_all o')) /\
+  (forall k x, In (k, x) (o_all o') ->
+     In (k, x) (o_all o) \/ (k_st x = Valid /\ exists u, In u us /\ k = rot_kid news u)) /\
+  (forall k x, (forall u, In u us -> rot_kid news u <> k) -> In (k, x) (o_all o) -> In (k, x) (o_all o')).
+Proof.
+  intros fx t c news. induction us as [|u us IH]; cbn [fold_left]; intros o.
+  - cbn. repeat split; auto.
+  - specialize (IH (new_active fx o u (secs_of t) (rot_kid news u) c)).
+    cbn zeta in IH. destruct IH as [IHu [IHi IHk]]. cbn zeta. repeat split.
+    + intros Hu. apply IHu. rewrite all_new_active. now apply uniq_ins.
+    + intros k x H. apply IHi in H. destruct H as [H|[Hv [u2 [Hin Hk]]]].
+      * rewrite all_new_active in H. apply In_ins in H. destruct H as [[-> ->]|[_ H]]; [|auto].
+        right. split; [reflexivity|]. exists u. split; [now left|reflexivity].
+      * right. split; [assumption|]. exists u2. split; [now right|assumption].
+    + intros k x Hne H. apply IHk; [intros u2 Hu2; apply Hne; now right|].
+      rewrite all_new_active. apply In_ins. right. split; [|assumption].
+      intros ->. apply (Hne u); [now left|reflexivity].
+Qed.
+
+Lemma revoke1_all : forall fx o kid c o' ok,
+  revoke1 fx o kid c = (o', ok) ->
+  o_pres o' = o_pres o /\
+  ((ok = false /\ o' = o) \/
+   (ok = true /\ exists x, find kid (o_all o) = Some x /\
+      o_all o' = ins kid (mkkey (k_us x) (k_vf x) Revoked c) (o_all o))).
+Proof.
+  intros fx o kid c o' ok H. unfold revoke1 in H.
+  destruct (find kid (o_all o)) as [x|] eqn:Hf.
+  - destruct (norerevoke (k_us x) && is_revoked (k_st x)); inversion H; subst; cbn; split; auto.
+    right. split; [reflexivity|]. exists x. auto.
+  - inversion H; subst. auto.
+Qed.
+
+Lemma revoke_all_spec : forall fx c kids o o',
+  revoke_all fx o kids c = Some o' ->
+  (uniq (o_all o) -> uniq (o_all o')) /\
+  (forall k, dead (o_all o) k -> dead (o_all o') k) /\
+  (forall k, In k kids -> uniq (o_all o) -> dead (o_all o') k /\ exists x, In (k, x) (o_all o')) /\
+  (forall k x, ~ In k kids -> (In (k, x) (o_all o') <-> In (k, x) (o_all o))) /\
+  o_pres o' = o_pres o.
+Proof.
+  intros fx c. induction kids as [|kid t IH]; cbn [revoke_all]; intros o o' H.
+  - inversion H; subst. split; [auto|]. split; [auto|]. split; [intros k0 []|]. split; [tauto|reflexivity].
+  - destruct (revoke1 fx o kid c) as [o1 ok] eqn:Hr. destruct ok; [|discriminate].
+    apply revoke1_all in Hr. destruct Hr as [Hp [[Hf _]|[_ [x [Hfx Hall]]]]]; [discriminate|].
+    specialize (IH _ _ H). destruct IH as [IHu [IHd [IHk [IHo IHp]]]].
+    assert (Hu1 : uniq (o_all o) -> uniq (o_all o1)) by (intros; rewrite Hall; now apply uniq_ins).
+    assert (Hd1 : forall k, dead (o_all o) k -> dead (o_all o1) k).
+    { intros k Hd. rewrite Hall. destruct (N.eq_dec k kid) as [->|Hne].
+      - now apply allQ_ins_same.
+      - now apply allQ_ins_other. }
+    split; [auto|]. split; [auto|]. split; [|split; [|congruence]].
+    + intros k Hk Hu. destruct Hk as [<-|Hin].
+      * split.
+        -- apply IHd. rewrite Hall. now apply allQ_ins_same.
+        -- destruct (in_dec N.eq_dec kid t) as [Hi|Hni]; [apply IHk; auto|].
+           exists (mkkey (k_us x) (k_vf x) Revoked c). apply IHo; [assumption|].
+           rewrite Hall. apply In_ins. auto.
+      * apply IHk; auto.
+    + intros k y Hnk. split.
+      * intros Hi. apply IHo in Hi; [|intros Hc; apply Hnk; now right].
+        rewrite Hall in Hi. apply In_ins in Hi. destruct Hi as [[-> _]|[_ Hi]]; [|assumption].
+        exfalso. apply Hnk. now left.
+      * intros Hi. apply IHo; [intros Hc; apply Hnk; now right|].
+        rewrite Hall. apply In_ins. right. split; [|assumption]. intros ->. apply Hnk. now left.
+Qed.
+
+Lemma load_all : forall fx e, o_all (load fx e) = e.
+Proof. reflexivity. Qed.
+
+(* ------------------------------------------------------------------ clusters *)
+Lemma nth_setn : forall {A} (l : list A) n n' x d,
+  nth n' (setn n x l) d = nth n' l d \/ (n' = n /\ nth n' (setn n x l) d = x).
+Proof.
+  induction l as [|h t IH]; intros n n' x d; cbn [setn]; [destruct n; auto|].
+  destruct n as [|n]; destruct n' as [|n']; cbn [nth]; auto.
+  destruct (IH n n' x d) as [H|[-> H]]; auto.
+Qed.
+
+Lemma getr_setr : forall (P : rep -> Prop) cl r x r0,
+  P (getr cl r0) -> (r0 = r -> P x) -> P (getr (setr cl r x) r0).
+Proof.
+  intros P cl r x r0 Hold Hnew. unfold getr, setr.
+  destruct (nth_setn cl (N.to_nat r) (N.to_nat r0) x rep0) as [H|[He H]]; rewrite H; [assumption|].
+  apply Hnew. now apply N2Nat.inj.
+Qed.
+
+Definition Urep (x : rep) : Prop := uniq (r_ent x) /\ uniq (o_all (r_obj x)).
+Definition Ucl (cl : cluster) : Prop := forall r, Urep (getr cl r).
+
+Lemma Urep0 : Urep rep0.
+Proof. split; constructor. Qed.
+
+Lemma Ucl_repeat : forall n, Ucl (repeat rep0 n).
+Proof.
+  intros n r. unfold getr. destruct (nth_in_or_default (N.to_nat r) (repeat rep0 n) rep0) as [H|H].
+  - apply repeat_spec in H. rewrite H. apply Urep0.
+  - rewrite H. apply Urep0.
+Qed.
+
+Lemma uniq_retain : forall e kid, uniq e -> uniq (retain e kid).
+Proof.
+  intros e kid Hu. unfold retain. destruct (find kid e) as [x|]; [|assumption].
+  destruct (is_valid (k_st x)); [now apply uniq_ins|assumption].
+Qed.
+
+Lemma step_U : forall fx cl o, Ucl cl -> Ucl (fst (step fx cl o)).
+Proof.
+  intros fx cl o HU r0. destruct o; cbn [step fst];
+    try (destruct (revoke_all fx (r_obj (getr cl r)) kids c) as [o'|] eqn:Hrv; cbn [fst]);
+    try apply HU; apply getr_setr; try apply HU; intros _; split; cbn [r_ent r_obj];
+    try rewrite load_all; try apply (HU r); try apply (HU dst).
+  - destruct (all_assert fx (r_obj (getr cl r)) u t_ms kid c) as [H|H]; rewrite H;
+      [apply (HU r)|apply uniq_ins, (HU r)].
+  - unfold rotate. rewrite <- rotate_fold.
+    apply (proj1 (rotate_all fx t_ms c news (o_pres (r_obj (getr cl r))) (r_obj (getr cl r)))), (HU r).
+  - apply (proj1 (revoke_all_spec _ _ _ _ _ Hrv)), (HU r).
+  - apply uniq_merge, (HU r).
+  - apply uniq_merge, (HU r).
+  - destruct flip; unfold repl_merge; apply uniq_trim, uniq_merge; [apply (HU src)|apply (HU dst)].
+  - destruct flip; unfold repl_merge; apply uniq_trim, uniq_merge; [apply (HU src)|apply (HU dst)].
+  - apply uniq_retain, (HU r).
+  - apply uniq_retain, (HU r).
+Qed.
+
+Lemma run_U : forall fx ops cl, Ucl cl -> Ucl (run fx cl ops).
+Proof.
+  intros fx. induction ops as [|o t IH]; cbn [run]; intros cl HU; [assumption|].
+  apply IH. now apply step_U.
+Qed.
+
+Lemma nth_setn_same : forall {A} (l : list A) n x d,
+  nth n (setn n x l) d = x \/ nth n (setn n x l) d = d.
+Proof.
+  induction l as [|h t IH]; intros n x d; cbn [setn]; [destruct n; cbn; auto|].
+  destruct n as [|n]; cbn [nth]; [auto|apply IH].
+Qed.
+
+Lemma getr_setr_same : forall cl r x, getr (setr cl r x) r = x \/ getr (setr cl r x) r = rep0.
+Proof. intros. unfold getr, setr. apply nth_setn_same. Qed.
+
+(* ------------------------------------------------------------------ revoked keys stay dead *)
+Definition deadR (x : rep) (k : N) : Prop := dead (r_ent x) k /\ dead (o_all (r_obj x)) k.
+
+Lemma deadR0 : forall k, deadR rep0 k.
+Proof. intros k. split; intros x []. Qed.
+
+Definition safe_op (cl : cluster) (r0 k : N) (o : op) : Prop :=
+  match o with
+  | OAssert r _ _ _ kid => r = r0 -> kid <> k
+  | ORotate r _ _ news => r = r0 -> forall u, rot_kid news u <> k
+  | ORepl src dst _ _ => dst = r0 -> dead (r_ent (getr cl src)) k
+  | _ => True
+  end.
+
+Lemma dead_retain : forall e kid k, dead e k -> dead (retain e kid) k.
+Proof.
+  intros e kid k Hd. unfold retain. destruct (find kid e) as [x|] eqn:Hf; [|assumption].
+  destruct (is_valid (k_st x)) eqn:Hv; [|assumption].
+  destruct (N.eq_dec k kid) as [->|Hne]; [|now apply allQ_ins_other].
+  apply find_In in Hf. apply Hd in Hf. rewrite Hf in Hv. discriminate.
+Qed.
+
+Lemma dead_rotate : forall fx o t c news k,
+  (forall u, rot_kid news u <> k) -> dead (o_all o) k -> dead (o_all (rotate fx o t c news)) k.
+Proof.
+  intros fx o t c news k Hne Hd x Hin. unfold rotate in Hin. rewrite <- rotate_fold in Hin.
+  apply (proj1 (proj2 (rotate_all fx t c news (o_pres o) o))) in Hin.
+  destruct Hin as [Hin|[_ [u [_ Hk]]]]; [now apply Hd|]. exfalso. now apply (Hne u).
+Qed.
+
+Lemma step_dead : forall fx cl r0 k o,
+  Ucl cl -> deadR (getr cl r0) k -> safe_op cl r0 k o ->
+  deadR (getr (fst (step fx cl o)) r0) k.
+Proof.
+  intros fx cl r0 k o HU Hd Hs. destruct o; cbn [step fst]; cbn [safe_op] in Hs;
+    try (destruct (revoke_all fx (r_obj (getr cl r)) kids c) as [o'|] eqn:Hrv; cbn [fst]);
+    try exact Hd; apply getr_setr; try exact Hd; intros E; subst; destruct Hd as [He Ho];
+    split; cbn [r_ent r_obj]; try rewrite load_all; try assumption.
+  - destruct (all_assert fx (r_obj (getr cl r)) u t_ms kid c) as [H|H]; rewrite H; [assumption|].
+    apply allQ_ins_other; [|assumption]. intros E. apply (Hs eq_refl). now symmetry.
+  - apply dead_rotate; [apply Hs; reflexivity|assumption].
+  - now apply (proj1 (proj2 (revoke_all_spec _ _ _ _ _ Hrv))).
+  - now apply allQ_merge.
+  - now apply allQ_merge.
+  - specialize (Hs eq_refl). destruct flip; unfold repl_merge; apply allQ_trim, allQ_merge; auto.
+  - specialize (Hs eq_refl). destruct flip; unfold repl_merge; apply allQ_trim, allQ_merge; auto.
+  - now apply dead_retain.
+  - now apply dead_retain.
+Qed.
+
+Fixpoint safe_hist (fx : bool) (cl : cluster) (r0 k : N) (ops : list op) : Prop :=
+  match ops with
+  | [] => True
+  | o :: t => safe_op cl r0 k o /\ safe_hist fx (fst (step fx cl o)) r0 k t
+  end.
+
+Lemma run_dead : forall fx ops cl r0 k,
+  Ucl cl -> deadR (getr cl r0) k -> safe_hist fx cl r0 k ops ->
+  deadR (getr (run fx cl ops) r0) k.
+Proof.
+  intros fx. induction ops as [|o t IH]; cbn [run safe_hist]; intros cl r0 k HU Hd Hs; [assumption|].
+  destruct Hs as [Hs Ht]. apply IH; [now apply step_U|now apply step_dead|assumption].
+Qed.
+
+Lemma dead_verify : forall o u k good, dead (o_all o) k -> verify o u k good <> VOk.
+Proof.
+  intros o u k good Hd. unfold verify. destruct (negb (mem u (o_pres o))); [discriminate|].
+  destruct (find k (o_all o)) as [x|] eqn:Hf; [|discriminate].
+  apply find_In in Hf. apply Hd in Hf. rewrite Hf. cbn. destruct (negb (k_us x =? u)); discriminate.
+Qed.
+
+(* a successful revoke kills at once; the next commit makes it durable *)
+Lemma revoke_dead_now : forall fx cl r kids c cl' k,
+  Ucl cl -> step fx cl (ORevoke r kids c) = (cl', OutRev true) -> In k kids ->
+  dead (o_all (r_obj (getr cl' r))) k /\ exists x, In (k, x) (o_all (r_obj (getr cl' r))).
+Proof.
+  intros fx cl r kids c cl' k HU Hs Hk. cbn [step] in Hs.
+  destruct (revoke_all fx (r_obj (getr cl r)) kids c) as [o'|] eqn:Hrv; inversion Hs; subst; clear Hs.
+  pose proof (proj1 (proj2 (proj2 (revoke_all_spec _ _ _ _ _ Hrv))) k Hk (proj2 (HU r))) as [Hd Hx].
+  destruct (getr_setr_same cl r (mkrep (r_ent (getr cl r)) o')) as [E|E]; rewrite E; cbn [r_obj]; [auto|].
+  (* out of range: the replica is the empty one, where no revoke succeeds *)
+  exfalso. unfold getr, setr in E.
+  assert (Hg : getr cl r = rep0 \/ (N.to_nat r < length cl)%nat).
+  { unfold getr. destruct (Compare_dec.le_lt_dec (length cl) (N.to_nat r)); [left; now apply nth_overflow|auto]. }
+  destruct Hg as [Hg|Hg].
+  - rewrite Hg in Hrv. destruct kids as [|k0 t]; [destruct Hk|]. cbn in Hrv. discriminate.
+  - destruct Hx as [x Hx].
+    assert (Hn : forall (l : list rep) n y, (n < length l)%nat -> nth n (setn n y l) rep0 = y).
+    { induction l as [|h t IH]; intros n y Hl; cbn in Hl; [lia|]. destruct n; cbn; [reflexivity|]. apply IH. lia. }
+    rewrite Hn in E by assumption. inversion E; subst. destruct Hx.
+Qed.
+
+Lemma fold_merge_keeps_revoked : forall k b acc,
+  uniq acc -> dead acc k -> (exists x, In (k, x) acc) ->
+  dead (fold_left merge1 b acc) k /\ exists x, In (k, x) (fold_left merge1 b acc).
+Proof.
+  intros k. induction b as [|[k2 v2] t IH]; cbn [fold_left]; intros acc Hu Hd Hx; [auto|].
+  apply IH; [now apply uniq_merge1| |now apply merge1_keeps].
+  destruct (N.eq_dec k2 k) as [->|Hne].
+  - destruct Hx as [x Hx]. unfold merge1. rewrite (uniq_In_find _ _ _ Hu Hx).
+    destruct (better v2 x) eqn:Hb; [|assumption].
+    apply allQ_ins_same. pose proof (Hd _ Hx) as Hr. unfold better in Hb. rewrite Hr in Hb.
+    destruct (k_st v2); cbn in Hb; try discriminate; reflexivity.
+  - unfold merge1. destruct (find k2 acc) as [vs|]; [destruct (better v2 vs)|];
+      try assumption; (apply allQ_ins_other; [congruence|assumption]).
+Qed.
+
+Lemma commit_dead : forall fx cl r k,
+  Ucl cl -> dead (o_all (r_obj (getr cl r))) k -> (exists x, In (k, x) (o_all (r_obj (getr cl r)))) ->
+  deadR (getr (fst (step fx cl (OCommit r))) r) k.
+Proof.
+  intros fx cl r k HU Hd [x Hx]. cbn [step fst].
+  destruct (getr_setr_same cl r (mkrep (merge (r_ent (getr cl r)) (o_all (r_obj (getr cl r))))
+             (load fx (merge (r_ent (getr cl r)) (o_all (r_obj (getr cl r))))))) as [E|E]; rewrite E;
+    [|apply deadR0].
+  split; cbn [r_ent r_obj]; rewrite ?load_all; eapply merge_revoked_right; eauto; apply (HU r).
+Qed.
+
+(* replication carries a revocation to the receiving replica, whichever side is "newer" *)
+Lemma repl_spreads : forall fx cl src dst flip t k,
+  Ucl cl -> dead (r_ent (getr cl src)) k -> (exists x, In (k, x) (r_ent (getr cl src))) ->
+  deadR (getr (fst (step fx cl (ORepl src dst flip t))) dst) k.
+Proof.
+  intros fx cl src dst flip t k HU Hd Hx. cbn [step fst].
+  match goal with |- deadR (getr (setr cl dst ?X) dst) k =>
+    destruct (getr_setr_same cl dst X) as [E|E]; rewrite E; [|apply deadR0] end.
+  assert (Hm : dead (if flip then repl_merge (r_ent (getr cl src)) (r_ent (getr cl dst)) t
+                     else repl_merge (r_ent (getr cl dst)) (r_ent (getr cl src)) t) k).
+  { destruct flip; unfold repl_merge; apply allQ_trim.
+    - unfold merge. apply fold_merge_keeps_revoked; auto. apply (HU src).
+    - destruct Hx as [x Hx]. eapply merge_revoked_right; eauto. apply (HU dst). }
+  split; cbn [r_ent r_obj]; rewrite ?load_all; exact Hm.
+Qed.
+
+(* ------------------------------------------------------------------ keys that are not revoked stay usable *)
+Definition okkey (u : N) (x : key) : Prop := is_revoked (k_st x) = false /\ k_us x = u.
+Definition alive (u : N) (l : stored) (k : N) : Prop := (exists x, In (k, x) l) /\ allQ (okkey u) l k.
+Definition aliveR (u : N) (x : rep) (k : N) : Prop :=
+  alive u (r_ent x) k /\ alive u (o_all (r_obj x)) k.
+
+Definition keep_op (cl : cluster) (r0 u k : N) (o : op) : Prop :=
+  match o with
+  | OAssert r _ _ _ kid => r = r0 -> kid <> k
+  | ORotate r _ _ news => r = r0 -> forall u', rot_kid news u' <> k
+  | ORevoke r kids _ => r = r0 -> ~ In k kids
+  | ORepl src dst _ _ => dst = r0 -> allQ (okkey u) (r_ent (getr cl src)) k
+  | _ => True
+  end.
+
+Lemma alive_ins_other : forall u l k k2 v, k <> k2 -> alive u l k -> alive u (ins k2 v l) k.
+Proof.
+  intros u l k k2 v Hne [[x Hx] Hq]. split.
+  - exists x. apply In_ins. auto.
+  - now apply allQ_ins_other.
+Qed.
+
+Lemma alive_merge : forall u a b k,
+  allQ (okkey u) a k -> allQ (okkey u) b k ->
+  (exists x, In (k, x) a) \/ (exists x, In (k, x) b) -> alive u (merge a b) k.
+Proof. intros. split; [now apply merge_present|now apply allQ_merge]. Qed.
+
+Lemma alive_trim : forall u t l k, alive u l k -> alive u (trim t l) k.
+Proof.
+  intros u t l k [[x Hx] Hq]. split; [|now apply allQ_trim].
+  exists x. apply In_trim_keep; [assumption|]. apply (Hq _ Hx).
+Qed.
+
+Lemma alive_retain : forall u e kid k, alive u e k -> alive u (retain e kid) k.
+Proof.
+  intros u e kid k Ha. unfold retain. destruct (find kid e) as [x|] eqn:Hf; [|assumption].
+  destruct (is_valid (k_st x)); [|assumption].
+  destruct (N.eq_dec k kid) as [->|Hne]; [|now apply alive_ins_other].
+  destruct Ha as [_ Hq]. apply find_In in Hf. destruct (Hq _ Hf) as [_ Hu]. split.
+  - eexists. apply In_ins. left. split; reflexivity.
+  - apply allQ_ins_same. split; [reflexivity|exact Hu].
+Qed.
+
+Lemma alive_rotate : forall fx o u t c news k,
+  (forall u', rot_kid news u' <> k) -> alive u (o_all o) k -> alive u (o_all (rotate fx o t c news)) k.
+Proof.
+  intros fx o u t c news k Hne [[x Hx] Hq]. unfold rotate. rewrite <- rotate_fold.
+  destruct (rotate_all fx t c news (o_pres o) o) as [_ [Hi Hk]]. split.
+  - exists x. apply Hk; [intros; apply Hne|assumption].
+  - intros y Hy. apply Hi in Hy. destruct Hy as [Hy|[_ [u' [_ E]]]]; [now apply Hq|].
+    exfalso. now apply (Hne u').
+Qed.
+
+Lemma step_alive : forall fx cl r0 u k o,
+  Ucl cl -> aliveR u (getr cl r0) k -> keep_op cl r0 u k o ->
+  aliveR u (getr (fst (step fx cl o)) r0) k.
+Proof.
+  intros fx cl r0 u k o HU Ha Hs. destruct o; cbn [step fst]; cbn [keep_op] in Hs;
+    try (destruct (revoke_all fx (r_obj (getr cl r)) kids c) as [o'|] eqn:Hrv; cbn [fst]);
+    try exact Ha; apply getr_setr; try exact Ha; intros E; subst; try specialize (Hs eq_refl);
+    destruct Ha as [He Ho]; split; cbn [r_ent r_obj]; try rewrite load_all; try assumption.
+  - destruct (all_assert fx (r_obj (getr cl r)) u0 t_ms kid c) as [H|H]; rewrite H; [assumption|].
+    apply alive_ins_other; [|assumption]. intros E. apply Hs. now symmetry.
+  - now apply alive_rotate.
+  - destruct (revoke_all_spec _ _ _ _ _ Hrv) as [_ [_ [_ [Hi _]]]].
+    destruct Ho as [[x Hx] Hq]. split.
+    + exists x. now apply Hi.
+    + intros y Hy. apply Hq. now apply Hi.
+  - apply alive_merge; [apply He|apply Ho|left; apply He].
+  - apply alive_merge; [apply He|apply Ho|left; apply He].
+  - destruct flip; unfold repl_merge; apply alive_trim, alive_merge; auto; try apply He;
+      [right|left]; apply He.
+  - destruct flip; unfold repl_merge; apply alive_trim, alive_merge; auto; try apply He;
+      [right|left]; apply He.
+  - now apply alive_retain.
+  - now apply alive_retain.
+Qed.
+
+Fixpoint keep_hist (fx : bool) (cl : cluster) (r0 u k : N) (ops : list op) : Prop :=
+  match ops with
+  | [] => True
+  | o :: t => keep_op cl r0 u k o /\ keep_hist fx (fst (step fx cl o)) r0 u k t
+  end.
+
+Lemma run_alive : forall fx ops cl r0 u k,
+  Ucl cl -> aliveR u (getr cl r0) k -> keep_hist fx cl r0 u k ops ->
+  aliveR u (getr (run fx cl ops) r0) k.
+Proof.
+  intros fx. induction ops as [|o t IH]; cbn [run keep_hist]; intros cl r0 u k HU Ha Hs; [assumption|].
+  destruct Hs as [Hs Ht]. apply IH; [now apply step_U|now apply step_alive|assumption].
+Qed.
+
+Lemma alive_verify : forall o u k,
+  uniq (o_all o) -> alive u (o_all o) k -> mem u (o_pres o) = true -> verify o u k true = VOk.
+Proof.
+  intros o u k Hu [[x Hx] Hq] Hm. unfold verify. rewrite Hm. cbn [negb].
+  rewrite (uniq_In_find _ _ _ Hu Hx). destruct (Hq _ Hx) as [Hr Hus].
+  rewrite Hus, N.eqb_refl, Hr. reflexivity.
+Qed.
+
+(* ------------------------------------------------------------------ the signer is the newest valid key *)
+Lemma signer_from_some : forall a best u s u' vf k,
+  signer_from best u s a = Some (u', vf, k) ->
+  (best = Some (u', vf, k) \/ (In (u', vf, k) a /\ u' = u /\ vf <= s)) /\
+  (forall bu bvf bk, best = Some (bu, bvf, bk) -> bvf <= vf) /\
+  (forall vf' k', In (u, vf', k') a -> vf' <= s -> vf' <= vf).
+Proof.
+  induction a as [|[[u1 vf1] k1] t IH]; cbn [signer_from]; intros best u s u' vf k H.
+  - subst. split; [auto|]. split; [|intros ? ? []].
+    intros bu bvf bk E. inversion E; subst. lia.
+  - apply IH in H. destruct H as [Hsrc [Hb Ht]].
+    destruct ((u1 =? u) && (vf1 <=? s)) eqn:Hc.
+    + apply andb_true_iff in Hc. destruct Hc as [Hu Hle]. apply N.eqb_eq in Hu. apply N.leb_le in Hle. subst u1.
+      destruct best as [[[bu bvf] bk]|].
+      * destruct (slot_lt (bu, bvf, bk) (u, vf1, k1)) eqn:Hlt.
+        -- specialize (Hb _ _ _ eq_refl). split; [|split].
+           ++ destruct Hsrc as [E|[Hin Hr]]; [inversion E; subst; right; split; [now left|auto]|right; split; [now right|auto]].
+           ++ intros bu' bvf' bk' E. inversion E; subst. cbn in Hlt.
+              apply orb_true_iff in Hlt. destruct Hlt as [Hlt|Hlt].
+              ** apply N.ltb_lt in Hlt. lia.
+              ** apply andb_true_iff in Hlt. destruct Hlt as [Hlt _]. apply N.eqb_eq in Hlt. lia.
+           ++ intros vf' k' [E|Hin] Hs; [inversion E; subst; assumption|eauto].
+        -- specialize (Hb _ _ _ eq_refl). split; [|split].
+           ++ destruct Hsrc as [E|[Hin Hr]]; [now left|right; split; [now right|auto]].
+           ++ intros bu' bvf' bk' E. inversion E; subst. assumption.
+           ++ intros vf' k' [E|Hin] Hs; [|eauto]. inversion E; subst. cbn in Hlt.
+              apply orb_false_iff in Hlt. destruct Hlt as [Hlt _]. apply N.ltb_ge in Hlt. lia.
+      * specialize (Hb _ _ _ eq_refl). split; [|split].
+        -- destruct Hsrc as [E|[Hin Hr]]; [inversion E; subst; right; split; [now left|auto]|right; split; [now right|auto]].
+        -- intros ? ? ? E. discriminate.
+        -- intros vf' k' [E|Hin] Hs; [inversion E; subst; assumption|eauto].
+    + split; [|split].
+      * destruct Hsrc as [E|[Hin Hr]]; [now left|right; split; [now right|auto]].
+      * assumption.
+      * intros vf' k' [E|Hin] Hs; [|eauto]. inversion E; subst. rewrite N.eqb_refl in Hc. cbn in Hc.
+        apply N.leb_gt in Hc. lia.
+Qed.
+
+Lemma signer_from_none : forall a best u s,
+  signer_from best u s a = None ->
+  best = None /\ forall vf' k', In (u, vf', k') a -> vf' <= s -> False.
+Proof.
+  induction a as [|[[u1 vf1] k1] t IH]; cbn [signer_from]; intros best u s H.
+  - split; [assumption|intros ? ? []].
+  - apply IH in H. destruct H as [Hb Ht].
+    destruct ((u1 =? u) && (vf1 <=? s)) eqn:Hc.
+    + destruct best as [b|]; [destruct (slot_lt b (u1, vf1, k1))|]; discriminate.
+    + split; [assumption|]. intros vf' k' [E|Hin] Hs; [|eauto]. inversion E; subst.
+      rewrite N.eqb_refl in Hc. cbn in Hc. apply N.leb_gt in Hc. lia.
+Qed.
+
+Definition Ainv (o : obj) : Prop :=
+  forall u vf k, In (u, vf, k) (o_act o) ->
+    exists x, In (k, x) (o_all o) /\ k_us x = u /\ k_vf x = vf /\ k_st x = Valid.
+Definition Binv (o : obj) : Prop :=
+  forall k x, In (k, x) (o_all o) -> k_st x = Valid -> exists k', In (k_us x, k_vf x, k') (o_act o).
+
+(* the declarative reading of "the newest non-revoked key whose validity has started" *)
+Definition newest_valid (o : obj) (u s : N) (r : option N) : Prop :=
+  match r with
+  | Some k => exists x, In (k, x) (o_all o) /\ k_us x = u /\ k_st x = Valid /\ k_vf x <= s /\
+      forall k' x', In (k', x') (o_all o) -> k_us x' = u -> k_st x' = Valid -> k_vf x' <= s ->
+                    k_vf x' <= k_vf x
+  | None => forall k' x', In (k', x') (o_all o) -> k_us x' = u -> k_st x' = Valid -> k_vf x' <= s -> False
+  end.
+
+Lemma signer_spec : forall o u s, Ainv o -> Binv o -> newest_valid o u s (signer o u s).
+Proof.
+  intros o u s HA HB. unfold signer, newest_valid.
+  destruct (signer_from None u s (o_act o)) as [[[u' vf] k]|] eqn:Hs.
+  - apply signer_from_some in Hs. destruct Hs as [[E|[Hin [-> Hle]]] [_ Hmax]]; [discriminate|].
+    destruct (HA _ _ _ Hin) as [x [Hx [Hu [Hv Hst]]]]. exists x. subst vf.
+    repeat split; auto. intros k' x' Hx' Hu' Hst' Hle'.
+    destruct (HB _ _ Hx' Hst') as [k'' Hk]. rewrite Hu' in Hk. eapply Hmax; eauto.
+  - apply signer_from_none in Hs. destruct Hs as [_ Hn]. intros k' x' Hx' Hu' Hst' Hle'.
+    destruct (HB _ _ Hx' Hst') as [k'' Hk]. rewrite Hu' in Hk. eapply Hn; eauto.
+Qed.
+
+Lemma In_act_rem : forall fx s a sl, In sl (act_rem fx s a) -> In sl a /\ same_slot fx s sl = false.
+Proof.
+  intros fx s a sl H. unfold act_rem in H. apply filter_In in H. destruct H as [H1 H2].
+  split; [assumption|]. now apply negb_true_iff in H2.
+Qed.
+
+Lemma In_act_ins : forall fx s a sl, In sl (act_ins fx s a) -> sl = s \/ In sl a.
+Proof. intros fx s a sl [H|H]; [auto|]. apply In_act_rem in H. tauto. Qed.
+
+(* an occupied (usage, second) slot stays occupied when something is inserted *)
+Lemma act_ins_occupied : forall fx u vf k a u1 vf1 k1,
+  In (u1, vf1, k1) a -> exists k', In (u1, vf1, k') (act_ins fx (u, vf, k) a).
+Proof.
+  intros fx u vf k a u1 vf1 k1 Hin.
+  destruct (same_slot fx (u, vf, k) (u1, vf1, k1)) eqn:Hs.
+  - cbn in Hs. apply andb_true_iff in Hs. destruct Hs as [Hs _]. apply andb_true_iff in Hs.
+    destruct Hs as [H1 H2]. apply N.eqb_eq in H1. apply N.eqb_eq in H2. subst. exists k. now left.
+  - exists k1. right. unfold act_rem. apply filter_In. split; [assumption|]. now rewrite Hs.
+Qed.
+
+Lemma same_slot_fields : forall fx u vf k u1 vf1 k1,
+  same_slot fx (u, vf, k) (u1, vf1, k1) = false -> k1 = k -> u1 = u -> vf1 = vf -> False.
+Proof.
+  intros fx u vf k u1 vf1 k1 H -> -> ->. cbn in H. rewrite !N.eqb_refl in H. destruct fx; discriminate.
+Qed.
+
+Lemma new_active_wf : forall fx o u vf kid c,
+  uniq (o_all o) -> find kid (o_all o) = None -> Ainv o -> Binv o ->
+  Ainv (new_active fx o u vf kid c) /\ Binv (new_active fx o u vf kid c).
+Proof.
+  intros fx o u vf kid c Hu Hf HA HB. split.
+  - intros u1 vf1 k1 Hin. cbn [new_active o_act o_all] in *. apply In_act_ins in Hin.
+    destruct Hin as [E|Hin].
+    + inversion E; subst. eexists. split; [apply In_ins; left; split; reflexivity|]. cbn. auto.
+    + destruct (HA _ _ _ Hin) as [x [Hx Hr]]. exists x. split; [|assumption].
+      apply In_ins. right. split; [|assumption]. intros ->. eapply find_none_In; eauto.
+  - intros k x Hin Hst. cbn [new_active o_act o_all] in *. apply In_ins in Hin.
+    destruct Hin as [[-> ->]|[Hne Hin]].
+    + cbn. exists kid. now left.
+    + destruct (HB _ _ Hin Hst) as [k' Hk']. eapply act_ins_occupied; eauto.
+Qed.
+
+Lemma assert_wf : forall fx o u t kid c,
+  uniq (o_all o) -> (signer o u (secs_of t) = None -> find kid (o_all o) = None) -> Ainv o -> Binv o ->
+  Ainv (assert_active fx o u t kid c) /\ Binv (assert_active fx o u t kid c).
+Proof.
+  intros fx o u t kid c Hu Hf HA HB. unfold assert_active.
+  destruct (signer o u (secs_of t)); [split; assumption|]. apply new_active_wf; auto.
+Qed.
+
+Lemma load_fold : forall fx e o,
+  let o' := fold_left (load1 fx) e o in
+  (forall sl, In sl (o_act o') ->
+     In sl (o_act o) \/ exists k x, sl = (k_us x, k_vf x, k) /\ In (k, x) e /\ k_st x = Valid) /\
+  (forall u vf k, In (u, vf, k) (o_act o) -> exists k', In (u, vf, k') (o_act o')) /\
+  (forall k x, In (k, x) e -> k_st x = Valid -> exists k', In (k_us x, k_vf x, k') (o_act o')).
+Proof.
+  intros fx. induction e as [|[k0 x0] t IH]; cbn [fold_left]; intros o.
+  - cbn. repeat split; eauto. intros ? ? [].
+  - specialize (IH (load1 fx o (k0, x0))). cbn zeta in IH. destruct IH as [I1 [I2 I3]]. cbn zeta.
+    assert (Hocc : forall u vf k, In (u, vf, k) (o_act o) ->
+              exists k', In (u, vf, k') (o_act (load1 fx o (k0, x0)))).
+    { intros u vf k Hin. cbn [load1 o_act]. destruct (is_valid (k_st x0)); [|eauto].
+      eapply act_ins_occupied; eauto. }
+    split; [|split].
+    + intros sl Hin. apply I1 in Hin. destruct Hin as [Hin|[k [x [E [Hx Hv]]]]].
+      * cbn [load1 o_act] in Hin. destruct (is_valid (k_st x0)) eqn:Hv; [|auto].
+        apply In_act_ins in Hin. destruct Hin as [->|Hin]; [|auto].
+        right. exists k0, x0. split; [reflexivity|]. split; [now left|].
+        destruct (k_st x0); try discriminate; reflexivity.
+      * right. exists k, x. split; [assumption|]. split; [now right|assumption].
+    + intros u vf k Hin. destruct (Hocc _ _ _ Hin) as [k' Hk']. eauto.
+    + intros k x [E|Hin] Hv; [|eauto]. inversion E; subst.
+      apply (I2 (k_us x) (k_vf x) k). cbn [load1 o_act]. rewrite Hv. cbn. now left.
+Qed.
+
+Lemma load_wf : forall fx e, uniq e -> Ainv (load fx e) /\ Binv (load fx e).
+Proof.
+  intros fx e Hu. destruct (load_fold fx e obj0) as [I1 [_ I3]]. cbn zeta in *. split.
+  - intros u vf k Hin. cbn [load o_act o_all] in *. apply I1 in Hin.
+    destruct Hin as [[]|[k' [x [E [Hx Hv]]]]]. inversion E; subst. exists x. auto.
+  - intros k x Hin Hv. cbn [load o_act o_all] in *. eauto.
+Qed.
+
+Lemma revoke1_wf : forall fx o kid c o',
+  revoke1 fx o kid c = (o', true) -> uniq (o_all o) -> Ainv o -> Binv o ->
+  Ainv o' /\ (has_sibling (o_all o) kid = false -> Binv o').
+Proof.
+  intros fx o kid c o' H Hu HA HB. unfold revoke1 in H.
+  destruct (find kid (o_all o)) as [x|] eqn:Hf; [|discriminate].
+  destruct (norerevoke (k_us x) && is_revoked (k_st x)); [discriminate|].
+  inversion H; subst; clear H. split.
+  - intros u vf k Hin. cbn [o_act o_all] in *. apply In_act_rem in Hin. destruct Hin as [Hin Hs].
+    destruct (HA _ _ _ Hin) as [y [Hy [Hyu [Hyv Hyst]]]]. exists y. split; [|auto].
+    apply In_ins. right. split; [|assumption]. intros ->.
+    rewrite (uniq_In_find _ _ _ Hu Hy) in Hf. inversion Hf; subst.
+    eapply same_slot_fields; eauto.
+  - intros Hsib k y Hin Hst. cbn [o_act o_all] in *. apply In_ins in Hin.
+    destruct Hin as [[-> ->]|[Hne Hin]]; [discriminate|].
+    destruct (HB _ _ Hin Hst) as [k' Hk']. exists k'. unfold act_rem. apply filter_In.
+    split; [assumption|]. apply negb_true_iff.
+    destruct (same_slot fx (k_us x, k_vf x, kid) (k_us y, k_vf y, k')) eqn:Hs; [|reflexivity].
+    exfalso. unfold has_sibling in Hsib. rewrite Hf in Hsib.
+    assert (Hex : existsb (fun p : N * key => negb (fst p =? kid) && (k_us (snd p) =? k_us x)
+                     && (k_vf (snd p) =? k_vf x) && is_valid (k_st (snd p))) (o_all o) = true).
+    { apply existsb_exists. exists (k, y). split; [assumption|]. cbn [fst snd].
+      cbn in Hs. apply andb_true_iff in Hs. destruct Hs as [Hs _]. apply andb_true_iff in Hs.
+      destruct Hs as [H1 H2]. apply N.eqb_eq in H1. apply N.eqb_eq in H2.
+      rewrite <- H1, <- H2, !N.eqb_refl, Hst. apply N.eqb_neq in Hne. rewrite Hne. reflexivity. }
+    congruence.
+Qed.
+
+(* ------------------------------------------------------------------ lifted over histories *)
+Definition wf_rep (x : rep) : Prop := Urep x /\ Ainv (r_obj x) /\ Binv (r_obj x).
+Definition wf_cl (cl : cluster) : Prop := forall r, wf_rep (getr cl r).
+
+Lemma wf_rep0 : wf_rep rep0.
+Proof. split; [apply Urep0|]. split; [intros ? ? ? []|intros ? ? []]. Qed.
+
+Lemma wf_repeat : forall n, wf_cl (repeat rep0 n).
+Proof.
+  intros n r. unfold getr. destruct (nth_in_or_default (N.to_nat r) (repeat rep0 n) rep0) as [H|H].
+  - apply repeat_spec in H. rewrite H. apply wf_rep0.
+  - rewrite H. apply wf_rep0.
+Qed.
+
+Definition fresh_rot (us : list N) (all : stored) (news : list (N * N)) : Prop :=
+  NoDup (map (rot_kid news) us) /\ forall u, In u us -> find (rot_kid news u) all = None.
+
+(* new key ids are fresh (they are random 96-bit values in the code); a revoke does not hit a
+   key that shares (usage, second) with another valid key *)
+Definition good_op (cl : cluster) (o : op) : Prop :=
+  match o with
+  | OAssert r u t _ kid =>
+      signer (r_obj (getr cl r)) u (secs_of t) = None -> find kid (o_all (r_obj (getr cl r))) = None
+  | ORotate r _ _ news => fresh_rot (o_pres (r_obj (getr cl r))) (o_all (r_obj (getr cl r))) news
+  | ORevoke r kids c => sibling_event (o_all (r_obj (getr cl r))) kids c = false
+  | _ => True
+  end.
+
+Lemma rotate_wf : forall fx t c news us o,
+  uniq (o_all o) -> fresh_rot us (o_all o) news -> Ainv o -> Binv o ->
+  let o' := fold_left (fun acc u => new_active fx acc u (secs_of t) (rot_kid news u) c) us o in
+  Ainv o' /\ Binv o'.
+Proof.
+  intros fx t c news. induction us as [|u us IH]; cbn [fold_left]; intros o Hu [Hnd Hfr] HA HB; [auto|].
+  cbn [map] in Hnd. inversion Hnd as [|? ? Hni Hnd']; subst.
+  destruct (new_active_wf fx o u (secs_of t) (rot_kid news u) c Hu (Hfr u (or_introl eq_refl)) HA HB) as [HA' HB'].
+  apply IH; auto.
+  - rewrite all_new_active. now apply uniq_ins.
+  - split; [assumption|]. intros u2 Hu2. rewrite all_new_active, find_ins_other; [apply Hfr; now right|].
+    intros E. apply Hni. rewrite <- E. now apply in_map.
+Qed.
+
+Lemma revoke_all_wf : forall fx c kids o o',
+  revoke_all fx o kids c = Some o' -> sibling_event (o_all o) kids c = false ->
+  uniq (o_all o) -> Ainv o -> Binv o -> Ainv o' /\ Binv o'.
+Proof.
+  intros fx c. induction kids as [|kid t IH]; cbn [revoke_all sibling_event]; intros o o' H Hs Hu HA HB.
+  - inversion H; subst. auto.
+  - destruct (revoke1 fx o kid c) as [o1 ok] eqn:Hr. destruct ok; [|discriminate].
+    apply orb_false_iff in Hs. destruct Hs as [Hs1 Hs2].
+    destruct (revoke1_wf _ _ _ _ _ Hr Hu HA HB) as [HA1 HB1]. specialize (HB1 Hs1).
+    apply revoke1_all in Hr. destruct Hr as [_ [[Hf _]|[_ [x [Hfx Hall]]]]]; [discriminate|].
+    rewrite Hfx, <- Hall in Hs2.
+    apply (IH o1 o'); auto. rewrite Hall. now apply uniq_ins.
+Qed.
+
+Lemma step_wf : forall fx cl o, wf_cl cl -> good_op cl o -> wf_cl (fst (step fx cl o)).
+Proof.
+  intros fx cl o HW Hg r0.
+  assert (HU : Ucl cl) by (intros r; apply (HW r)).
+  pose proof (step_U fx cl o HU r0) as HU'.
+  split; [exact HU'|]. clear HU'.
+  assert (Hl : forall e, uniq e -> Ainv (load fx e) /\ Binv (load fx e)) by (intros; now apply load_wf).
+  destruct o; cbn [step fst]; cbn [good_op] in Hg;
+    try (destruct (revoke_all fx (r_obj (getr cl r)) kids c) as [o'|] eqn:Hrv; cbn [fst]);
+    try apply (HW r0);
+    apply (getr_setr (fun x => Ainv (r_obj x) /\ Binv (r_obj x))); try apply (HW r0); intros _;
+    cbn [r_obj].
+  - apply assert_wf; auto; try apply (HW r); try apply (HU r).
+  - unfold rotate. rewrite <- rotate_fold. apply rotate_wf; auto; try apply (HW r); try apply (HU r).
+  - eapply revoke_all_wf; eauto; try apply (HW r); try apply (HU r).
+  - apply Hl, uniq_merge, (HU r).
+  - apply Hl, (HU r).
+  - apply Hl. destruct flip; unfold repl_merge; apply uniq_trim, uniq_merge; [apply (HU src)|apply (HU dst)].
+  - apply Hl, uniq_retain, (HU r).
+Qed.
+
+Fixpoint good_hist (fx : bool) (cl : cluster) (ops : list op) : Prop :=
+  match ops with
+  | [] => True
+  | o :: t => good_op cl o /\ good_hist fx (fst (step fx cl o)) t
+  end.
+
+Lemma run_wf : forall fx ops cl, wf_cl cl -> good_hist fx cl ops -> wf_cl (run fx cl ops).
+Proof.
+  intros fx. induction ops as [|o t IH]; cbn [run good_hist]; intros cl HW Hg; [assumption|].
+  destruct Hg as [Hg Ht]. apply IH; [now apply step_wf|assumption].
+Qed.
+
+Lemma sign_signer : forall o u t k, sign o u t = SKid k -> signer o u (secs_of t) = Some k.
+Proof.
+  intros o u t k H. unfold sign in H. destruct (negb (mem u (o_pres o))); [discriminate|].
+  destruct (signer o u (secs_of t)); inversion H; reflexivity.
+Qed.
+
+Lemma sign_noactive : forall o u t, sign o u t = SNoActive -> signer o u (secs_of t) = None.
+Proof.
+  intros o u t H. unfold sign in H. destruct (negb (mem u (o_pres o))); [discriminate|].
+  destruct (signer o u (secs_of t)); [discriminate|reflexivity].
+Qed.
+
+(* freshness alone (the environment assumption), without the no-sibling clause *)
+Definition fresh_op (cl : cluster) (o : op) : Prop :=
+  match o with
+  | ORevoke _ _ _ => True
+  | _ => good_op cl o
+  end.
+Fixpoint fresh_hist (fx : bool) (cl : cluster) (ops : list op) : Prop :=
+  match ops with
+  | [] => True
+  | o :: t => fresh_op cl o /\ fresh_hist fx (fst (step fx cl o)) t
+  end.
+
+Lemma rotate_keeps : forall fx o t c news k x,
+  (forall u, rot_kid news u <> k) ->
+  (In (k, x) (o_all (rotate fx o t c news)) <-> In (k, x) (o_all o)).
+Proof.
+  intros fx o t c news k x Hne. unfold rotate. rewrite <- rotate_fold.
+  destruct (rotate_all fx t c news (o_pres o) o) as [_ [Hi Hk]]. split.
+  - intros H. apply Hi in H. destruct H as [H|[_ [u [_ E]]]]; [assumption|]. exfalso. now apply (Hne u).
+  - intros H. apply Hk; [intros; apply Hne|assumption].
+Qed.
+
+(* the scripted counterexample of the unfixed tree: es256 key 1 @0 s, keys 2 and 3 @5 s,
+   revoke 2: key 3 is valid, newest, started, yet key 1 signs at 6 s *)
+Definition cex_ops : list op :=
+  [OAssert 0 0 0 (1, 1) 1; ORotate 0 5000 (2, 1) [(0, 2)]; ORotate 0 5400 (3, 1) [(0, 3)];
+   ORevoke 0 [2] (4, 1)].
+
+Lemma cex_fresh : fresh_hist false [rep0] cex_ops.
+Proof.
+  cbn [fresh_hist cex_ops fresh_op good_op]. repeat split; try reflexivity;
+    try (intros _; reflexivity); try (constructor; [intros []|constructor]);
+    intros u [<-|[]]; reflexivity.
+Qed.
+
+Lemma cex_not_newest :
+  ~ newest_valid (r_obj (getr (run false [rep0] cex_ops) 0)) 0 6
+      (signer (r_obj (getr (run false [rep0] cex_ops) 0)) 0 6).
+Proof.
+  assert (E : signer (r_obj (getr (run false [rep0] cex_ops) 0)) 0 6 = Some 1) by (vm_compute; reflexivity).
+  rewrite E. cbn [newest_valid]. intros [x [Hx [_ [_ [_ Hmax]]]]].
+  assert (Hall : o_all (r_obj (getr (run false [rep0] cex_ops) 0)) =
+     [(1, mkkey 0 0 Valid (1, 1)); (2, mkkey 0 5 Revoked (4, 1)); (3, mkkey 0 5 Valid (3, 1))])
+    by (vm_compute; reflexivity).
+  rewrite Hall in Hx, Hmax.
+  assert (Hx1 : k_vf x = 0).
+  { destruct Hx as [Hx|[Hx|[Hx|[]]]]; inversion Hx; subst; reflexivity. }
+  specialize (Hmax 3 (mkkey 0 5 Valid (3, 1))). cbn in Hmax. rewrite Hx1 in Hmax.
+  assert (5 <= 0) by (apply Hmax; auto; lia). lia.
+Qed.
+
+(* ------------------------------------------------------------------ the fixed tree (fx = true):
+   the active map holds EVERY valid key under (usage, second, kid) *)
+Definition BinvX (o : obj) : Prop :=
+  forall k x, In (k, x) (o_all o) -> k_st x = Valid -> In (k_us x, k_vf x, k) (o_act o).
+
+Lemma BinvX_Binv : forall o, BinvX o -> Binv o.
+Proof. intros o H k x Hin Hv. exists k. now apply H. Qed.
+
+Lemma act_ins_true_keeps : forall s a sl, In sl a -> In sl (act_ins true s a).
+Proof.
+  intros [[u vf] k] a [[u1 vf1] k1] Hin.
+  destruct (same_slot true (u, vf, k) (u1, vf1, k1)) eqn:Hs.
+  - cbn in Hs. apply andb_true_iff in Hs. destruct Hs as [Hs H3]. apply andb_true_iff in Hs.
+    destruct Hs as [H1 H2]. apply N.eqb_eq in H1. apply N.eqb_eq in H2. apply N.eqb_eq in H3. subst. now left.
+  - right. unfold act_rem. apply filter_In. split; [assumption|]. now rewrite Hs.
+Qed.
+
+Lemma new_active_wfX : forall o u vf kid c,
+  uniq (o_all o) -> find kid (o_all o) = None -> Ainv o -> BinvX o ->
+  Ainv (new_active true o u vf kid c) /\ BinvX (new_active true o u vf kid c).
+Proof.
+  intros o u vf kid c Hu Hf HA HB. split.
+  - apply (new_active_wf true o u vf kid c Hu Hf HA (BinvX_Binv _ HB)).
+  - intros k x Hin Hst. cbn [new_active o_act o_all] in *. apply In_ins in Hin.
+    destruct Hin as [[-> ->]|[Hne Hin]]; [cbn; now left|].
+    apply act_ins_true_keeps. now apply HB.
+Qed.
+
+Lemma assert_wfX : forall o u t kid c,
+  uniq (o_all o) -> (signer o u (secs_of t) = None -> find kid (o_all o) = None) -> Ainv o -> BinvX o ->
+  Ainv (assert_active true o u t kid c) /\ BinvX (assert_active true o u t kid c).
+Proof.
+  intros o u t kid c Hu Hf HA HB. unfold assert_active.
+  destruct (signer o u (secs_of t)); [split; assumption|]. apply new_active_wfX; auto.
+Qed.
+
+Lemma rotate_wfX : forall t c news us o,
+  uniq (o_all o) -> fresh_rot us (o_all o) news -> Ainv o -> BinvX o ->
+  let o' := fold_left (fun acc u => new_active true acc u (secs_of t) (rot_kid news u) c) us o in
+  Ainv o' /\ BinvX o'.
+Proof.
+  intros t c news. induction us as [|u us IH]; cbn [fold_left]; intros o Hu [Hnd Hfr] HA HB; [auto|].
+  cbn [map] in Hnd. inversion Hnd as [|? ? Hni Hnd']; subst.
+  destruct (new_active_wfX o u (secs_of t) (rot_kid news u) c Hu (Hfr u (or_introl eq_refl)) HA HB) as [HA' HB'].
+  apply IH; auto.
+  - rewrite all_new_active. now apply uniq_ins.
+  - split; [assumption|]. intros u2 Hu2. rewrite all_new_active, find_ins_other; [apply Hfr; now right|].
+    intros E. apply Hni. rewrite <- E. now apply in_map.
+Qed.
+
+Lemma revoke1_wfX : forall o kid c o',
+  revoke1 true o kid c = (o', true) -> uniq (o_all o) -> Ainv o -> BinvX o -> Ainv o' /\ BinvX o'.
+Proof.
+  intros o kid c o' H Hu HA HB.
+  split; [exact (proj1 (revoke1_wf true o kid c o' H Hu HA (BinvX_Binv _ HB)))|].
+  unfold revoke1 in H. destruct (find kid (o_all o)) as [x|] eqn:Hf; [|discriminate].
+  destruct (norerevoke (k_us x) && is_revoked (k_st x)); [discriminate|].
+  inversion H; subst; clear H.
+  intros k y Hin Hst. cbn [o_act o_all] in *. apply In_ins in Hin.
+  destruct Hin as [[-> ->]|[Hne Hin]]; [discriminate|].
+  unfold act_rem. apply filter_In. split; [now apply HB|]. apply negb_true_iff. cbn.
+  apply N.eqb_neq in Hne. rewrite N.eqb_sym in Hne. rewrite Hne. now rewrite andb_false_r.
+Qed.
+
+Lemma revoke_all_wfX : forall c kids o o',
+  revoke_all true o kids c = Some o' -> uniq (o_all o) -> Ainv o -> BinvX o -> Ainv o' /\ BinvX o'.
+Proof.
+  intros c. induction kids as [|kid t IH]; cbn [revoke_all]; intros o o' H Hu HA HB.
+  - inversion H; subst. auto.
+  - destruct (revoke1 true o kid c) as [o1 ok] eqn:Hr. destruct ok; [|discriminate].
+    destruct (revoke1_wfX _ _ _ _ Hr Hu HA HB) as [HA1 HB1].
+    apply revoke1_all in Hr. destruct Hr as [_ [[Hf _]|[_ [x [Hfx Hall]]]]]; [discriminate|].
+    apply (IH o1 o'); auto. rewrite Hall. now apply uniq_ins.
+Qed.
+
+Lemma load_foldX : forall e o,
+  let o' := fold_left (load1 true) e o in
+  (forall sl, In sl (o_act o) -> In sl (o_act o')) /\
+  (forall k x, In (k, x) e -> k_st x = Valid -> In (k_us x, k_vf x, k) (o_act o')).
+Proof.
+  induction e as [|[k0 x0] t IH]; cbn [fold_left]; intros o.
+  - cbn. split; [auto|intros ? ? []].
+  - specialize (IH (load1 true o (k0, x0))). cbn zeta in IH. destruct IH as [I1 I2]. cbn zeta. split.
+    + intros sl Hin. apply I1. cbn [load1 o_act]. destruct (is_valid (k_st x0)); [|assumption].
+      now apply act_ins_true_keeps.
+    + intros k x [E|Hin] Hv; [|eauto]. inversion E; subst. apply I1. cbn [load1 o_act]. rewrite Hv. cbn. now left.
+Qed.
+
+Lemma load_wfX : forall e, uniq e -> Ainv (load true e) /\ BinvX (load true e).
+Proof.
+  intros e Hu. split; [exact (proj1 (load_wf true e Hu))|].
+  intros k x Hin Hv. cbn [load o_act o_all] in *. now apply (proj2 (load_foldX e obj0)).
+Qed.
+
+Definition wf_repX (x : rep) : Prop := Urep x /\ Ainv (r_obj x) /\ BinvX (r_obj x).
+Definition wf_clX (cl : cluster) : Prop := forall r, wf_repX (getr cl r).
+
+Lemma wf_repX0 : wf_repX rep0.
+Proof. split; [apply Urep0|]. split; [intros ? ? ? []|intros ? ? []]. Qed.
+
+Lemma wf_repeatX : forall n, wf_clX (repeat rep0 n).
+Proof.
+  intros n r. unfold getr. destruct (nth_in_or_default (N.to_nat r) (repeat rep0 n) rep0) as [H|H].
+  - apply repeat_spec in H. rewrite H. apply wf_repX0.
+  - rewrite H. apply wf_repX0.
+Qed.
+
+Lemma step_wfX : forall cl o, wf_clX cl -> fresh_op cl o -> wf_clX (fst (step true cl o)).
+Proof.
+  intros cl o HW Hg r0.
+  assert (HU : Ucl cl) by (intros r; apply (HW r)).
+  pose proof (step_U true cl o HU r0) as HU'.
+  split; [exact HU'|]. clear HU'.
+  assert (Hl : forall e, uniq e -> Ainv (load true e) /\ BinvX (load true e)) by (intros; now apply load_wfX).
+  destruct o; cbn [step fst]; cbn [fresh_op good_op] in Hg;
+    try (destruct (revoke_all true (r_obj (getr cl r)) kids c) as [o'|] eqn:Hrv; cbn [fst]);
+    try apply (HW r0);
+    apply (getr_setr (fun x => Ainv (r_obj x) /\ BinvX (r_obj x))); try apply (HW r0); intros _;
+    cbn [r_obj].
+  - apply assert_wfX; auto; try apply (HW r); try apply (HU r).
+  - unfold rotate. rewrite <- rotate_fold. apply rotate_wfX; auto; try apply (HW r); try apply (HU r).
+  - eapply revoke_all_wfX; eauto; try apply (HW r); try apply (HU r).
+  - apply Hl, uniq_merge, (HU r).
+  - apply Hl, (HU r).
+  - apply Hl. destruct flip; unfold repl_merge; apply uniq_trim, uniq_merge; [apply (HU src)|apply (HU dst)].
+  - apply Hl, uniq_retain, (HU r).
+Qed.
+
+Lemma run_wfX : forall ops cl, wf_clX cl -> fresh_hist true cl ops -> wf_clX (run true cl ops).
+Proof.
+  induction ops as [|o t IH]; cbn [run fresh_hist]; intros cl HW Hg; [assumption|].
+  destruct Hg as [Hg Ht]. apply IH; [now apply step_wfX|assumption].
+Qed.
